@@ -1,6 +1,8 @@
 // Scenario "tp": submitters, a FairThreadPool with n workers and one thread calling Stop / SoftStop / HardStop at
 // any moment, followed by Wait (C08; executor clauses of C05; C03/C04 clauses).
-//   subs = e.g. "21"   workers = 1 | 2   stop = stop | soft | hard
+//   subs = e.g. "21"   workers = 1 | 2   stop = stop | soft | hard | softonly (SoftStop and nothing else)
+//   chain = 1: a submitter submits only its first job, every job submits the next one of its submitter from inside
+//              Call (a follow-up).  chain / softonly executions are judged by the abstract monitors only.
 #include "common.hpp"
 
 #include <yaclib/runtime/fair_thread_pool.hpp>
@@ -12,9 +14,14 @@ namespace {
 struct PoolJob final : yaclib::Job {
   int id = 0;
   int* plain = nullptr;
+  yaclib::IExecutor* pool = nullptr;
+  PoolJob* next = nullptr;  // follow-up job (chain mode)
   void Call() noexcept final {
     *plain += 1;  // fibers never run in parallel: a plain counter is fine for the final tally
     vrt::Obs("call", std::to_string(id));
+    if (next != nullptr) {
+      pool->Submit(*next);
+    }
   }
   void Drop() noexcept final {
     vrt::Obs("drop", std::to_string(id));
@@ -36,6 +43,15 @@ VRT_SCENARIO(tp, "submitters, FairThreadPool workers, a stopper, then Wait") {
   }
   yaclib::FairThreadPool pool{workers};
   vrt::NameRange(&pool, sizeof(pool), "pool");
+  const bool chain = ctx.Param("chain", "0") == "1";
+  if (chain) {
+    for (auto& js : jobs) {
+      for (std::size_t j = 0; j + 1 < js.size(); ++j) {
+        js[j].pool = &pool;
+        js[j].next = &js[j + 1];
+      }
+    }
+  }
   vh::Gate gate;
   vrt::NameField(&gate.flag, "kgate");
   for (std::size_t s = 0; s != subs.size(); ++s) {
@@ -43,6 +59,9 @@ VRT_SCENARIO(tp, "submitters, FairThreadPool workers, a stopper, then Wait") {
       for (auto& job : jobs[s]) {
         vrt::Api api{"Submit"};
         pool.Submit(job);
+        if (chain) {
+          break;  // the rest are follow-ups
+        }
       }
     });
   }
@@ -51,6 +70,8 @@ VRT_SCENARIO(tp, "submitters, FairThreadPool workers, a stopper, then Wait") {
     gate.Pass();
     if (stop == "stop") {
       pool.Stop();
+    } else if (stop == "softonly") {
+      pool.SoftStop();  // stops at once when idle, otherwise when the last accepted job (and its follow-ups) is done
     } else if (stop == "soft") {
       pool.SoftStop();
       vrt::Obs("soft_returned");
